@@ -7,6 +7,26 @@ From Coq Require Import Lia ZifyN ZifyNat ZifyBool.
 
 Definition no_proc_msg (csid req : N) : out := (csid, RError c_CALL req [] e_no_such_procedure [] []).
 
+(** the state after a CALL was answered no_such_procedure: a pending
+    progressive call with that id (a refused further chunk) is ended *)
+Definition no_proc_state (d : dealer) (cid : callid) : dealer :=
+  match cget (d_bycall d) cid with
+  | Some ikey0 =>
+      drop_call (match cget (d_invs d) ikey0 with
+                 | Some inv0 => cancel_timer d (inv_timer inv0) | None => d end) cid ikey0
+  | None => d
+  end.
+
+Lemma nps_none : forall d cid, cget (d_bycall d) cid = None -> no_proc_state d cid = d.
+Proof. intros d cid H. unfold no_proc_state. rewrite H. reflexivity. Qed.
+
+Lemma nps_some : forall d cid k inv, cget (d_bycall d) cid = Some k -> cget (d_invs d) k = Some inv ->
+    no_proc_state d cid = drop_call (cancel_timer d (inv_timer inv)) cid k.
+Proof. intros d cid k inv H1 H2. unfold no_proc_state. rewrite H1, H2. reflexivity. Qed.
+
+Lemma nps_gone : forall d cid k, cget (d_bycall d) cid = Some k -> gone (no_proc_state d cid) cid k.
+Proof. intros d cid k H. unfold no_proc_state. rewrite H. apply gone_drop_call. Qed.
+
 (** the caller announces a further chunk without having the feature *)
 Definition call_abort_cond (caller : session) (opts : dict) : bool :=
   opt_bool opts "progress" && negb (sess_feature caller "caller" f_prog_inv).
@@ -83,11 +103,11 @@ Section Call.
   Let the_call := call cfg lookup now d caller req opts proc args kw oracle.
 
   Lemma call_unroutable : match_procedure d proc oracle = None ->
-      the_call = CallRefused d [no_proc_msg csid req].
+      the_call = CallRefused (no_proc_state d cid) [no_proc_msg csid req].
   Proof. intros H. unfold the_call, call. rewrite H. reflexivity. Qed.
 
   Lemma call_no_callees : forall r, match_procedure d proc oracle = Some r -> reg_callees r = [] ->
-      the_call = CallRefused d [no_proc_msg csid req].
+      the_call = CallRefused (no_proc_state d cid) [no_proc_msg csid req].
   Proof. intros r H E. unfold the_call, call. rewrite H, E. reflexivity. Qed.
 
   Lemma call_abort : forall r, match_procedure d proc oracle = Some r -> reg_callees r <> [] ->
@@ -177,10 +197,10 @@ Section Call.
   Inductive call_outcome : call_result -> Prop :=
   | CO_unroutable :
       match_procedure d proc oracle = None ->
-      call_outcome (CallRefused d [no_proc_msg csid req])
+      call_outcome (CallRefused (no_proc_state d cid) [no_proc_msg csid req])
   | CO_no_callees r :
       match_procedure d proc oracle = Some r -> reg_callees r = [] ->
-      call_outcome (CallRefused d [no_proc_msg csid req])
+      call_outcome (CallRefused (no_proc_state d cid) [no_proc_msg csid req])
   | CO_abort r :
       match_procedure d proc oracle = Some r -> reg_callees r <> [] ->
       call_abort_cond caller opts = true ->
@@ -580,9 +600,22 @@ Qed.
 Theorem prompt_unroutable_proof : forall cfg lookup now d caller req opts proc args kw oracle,
     dealer_wf lookup d ->
     no_exact d proc -> no_prefix d proc -> no_wildcard d proc ->
+    let cid := (s_id caller, req) in
+    let d' := no_proc_state d cid in
     call cfg lookup now d caller req opts proc args kw oracle =
-    CallRefused d [(s_id caller, RError c_CALL req [] e_no_such_procedure [] [])].
+    CallRefused d' [(s_id caller, RError c_CALL req [] e_no_such_procedure [] [])] /\
+    (* a first chunk: nothing was recorded, nothing changes *)
+    (cget (d_bycall d) cid = None -> d' = d) /\
+    (* a further chunk of a pending progressive call: that call is ended *)
+    (forall k, cget (d_bycall d) cid = Some k -> gone d' cid k) /\
+    cget (d_calls d') cid = None.
 Proof.
-  intros cfg lookup now d caller req opts proc args kw oracle WF H1 H2 H3.
-  apply call_unroutable. apply (best_match_none lookup d WF). auto.
+  intros cfg lookup now d caller req opts proc args kw oracle WF H1 H2 H3 cid d'.
+  split; [apply call_unroutable; apply (best_match_none lookup d WF); auto|].
+  split; [apply nps_none|]. split; [apply nps_gone|].
+  destruct (cget (d_bycall d) cid) as [k|] eqn:Hb.
+  - apply (nps_gone d cid k Hb).
+  - unfold d'. rewrite nps_none by exact Hb.
+    destruct (cget (d_calls d) cid) eqn:Ec; [|reflexivity].
+    destruct (wf_call lookup d WF _ _ Ec) as (_ & _ & Hn). congruence.
 Qed.
